@@ -22,7 +22,8 @@ ASSUMPTIONS = [
     "dict specifications are generated for float/complex dtypes (the NaN sentinel cannot exist in int arrays)",
 ]
 
-DTYPES = {None: None, "float": np.float64, "int": np.int64, "complex": np.complex128, "bool": np.bool_}
+DTYPES = {None: None, "float": np.float64, "int": np.int64, "complex": np.complex128, "bool": np.bool_,
+          "inferred-complex": None}
 
 
 # --------------------------------------------------------------------------- generators
@@ -94,8 +95,10 @@ def spec_strategy(draw, g, subs, nvdim, dtype):
 def value_case(draw):
     g, subs = draw(mesh_with_subs())
     nvdim = draw(st.integers(1, 4))
-    dtype = draw(st.sampled_from([None, None, "float", "int", "complex", "bool"]))
-    spec = draw(spec_strategy(g, subs, nvdim, dtype))
+    dtype = draw(st.sampled_from([None, None, "float", "int", "complex", "bool", "inferred-complex"]))
+    spec = draw(spec_strategy(g, subs, nvdim, "complex" if dtype == "inferred-complex" else dtype))
+    if dtype == "inferred-complex" and spec[0] in ("callable", "dict"):
+        dtype = "complex"  # callables and dicts need an explicit complex dtype (documented)
     if spec[0] in ("callable",) and dtype in ("bool", "int"):
         dtype = None  # polynomial values at cell centres are not integers
     return {"g": g, "subs": subs, "nvdim": nvdim, "vdims": draw(gen.vdims_strategy(nvdim)), "dtype": dtype,
@@ -167,6 +170,8 @@ def build_spec(case, mesh):
     import discretisedfield as df
 
     g, nvdim, dtype, spec = case["g"], case["nvdim"], case["dtype"], case["spec"]
+    if dtype == "inferred-complex":
+        dtype = "complex"
     lat = gen.lattice_of(g)
     n = tuple(lat.n)
     kind = spec[0]
@@ -254,7 +259,7 @@ def make_field(case, mesh, val, base=None):
     via = case.get("via", "init")
     if via == "init":
         return df.Field(mesh, value=val, **kw)
-    f = df.Field(mesh, value=base if base is not None else 0, **kw)
+    f = df.Field(mesh, value=base if base is not None else np.full((*mesh.n, case["nvdim"]), 1.5), **kw)
     if via == "update":
         f.update_field_values(val)
     else:
@@ -285,7 +290,9 @@ def check_value(case):
     arr = f.array
     require(isinstance(arr, np.ndarray) and arr.shape == (*lat.n, nvdim), "array-shape",
             f"{getattr(arr, 'shape', None)} vs {(*lat.n, nvdim)}")
-    if dtype is not None and kind != "field":  # a source field's dtype is carried over (not asserted)
+    if dtype == "inferred-complex":
+        require(np.iscomplexobj(arr), "complex-values-lost", f"complex specification stored as {arr.dtype}")
+    elif dtype is not None and kind != "field":  # a source field's dtype is carried over (not asserted)
         require(arr.dtype == DTYPES[dtype], "array-dtype", f"{arr.dtype} for dtype={dtype}")
     elif kind in ("const", "array", "scalar-array"):
         require(arr.dtype == np.float64, "array-dtype-inferred", f"{arr.dtype}")
@@ -346,7 +353,7 @@ def _field_from_seed(case, mesh, lat):
             mapping = {v: t for v, t in zip(vd, tgt)}
             if case["mapping"] == "partial":
                 mapping = {v: (t if i % 2 == 0 else None) for i, (v, t) in enumerate(mapping.items())}
-        kw["vdim_mapping"] = mapping
+        kw["vdim_mapping"] = gen.shuffled_mapping(mapping, case.get("perm_seed", 0) + 3)
     f = df.Field(mesh, nvdim=nvdim, value=arr, dtype=DTYPES[dt], unit=case.get("unit"),
                  valid=gen.make_mask(case.get("mask", ["all"]), lat.n), **kw)
     return f, arr
